@@ -7,12 +7,18 @@ open MosnVerif.Gen.ProxyPhase MosnVerif.Gen.ProxyReason MosnVerif.Gen.ProxyRetry
 def peTail (c : Cfg) (s1 : S) (e1 : Bool) : S × Option Phase :=
   if s1.downReset then (dsResetStream c s1, some .End)
   else if s1.direct then
-    let s2 := { s1 with direct := false, rs := none }
+    let s2 := { s1 with direct := false, rs := none, retries := (rsReset c s1).retries }
     if c.oneway then (s2, some .Oneway)
     else if s1.phase ≠ .UpFilter then (s2, some .UpFilter)
     else (s2, if e1 then some .End else none)
   else if s1.up.isSome && s1.setupRetry then ({ s1 with setupRetry := false }, some .Retry)
   else (s1, if e1 || s1.procDone then some .End else none)
+
+/-- the state written by the direct-response branch: `releaseRetry` then `clearRetryState` -/
+theorem pe_direct_state (c : Cfg) (s1 : S) :
+    { rsReset c { s1 with direct := false } with rs := none } =
+      { s1 with direct := false, rs := none, retries := (rsReset c s1).retries } := by
+  simp [rsReset]
 
 theorem processError_spec (c : Cfg) (s : S) :
     processError c s =
@@ -21,7 +27,7 @@ theorem processError_spec (c : Cfg) (s : S) :
         if c.oneway then (s, some .Oneway) else peTail c (onUpstreamReset c s) true
       else peTail c s false := by
   unfold processError Gen.ProxyError.processError peTail
-  simp only [peOps, Bool.not_true, Bool.false_eq_true, if_false, id]
+  simp only [peOps, Bool.not_true, Bool.false_eq_true, if_false, id, pe_direct_state]
   by_cases hc : s.cleaned = true
   · simp [hc]
   · simp only [hc, if_false]
